@@ -183,6 +183,7 @@ func runC14(c *core.Ctx) {
 			}
 		}
 	}
+	c14Server(c, router)
 	if c.Shard == 0 {
 		c14ValidationHandler(c)
 	}
